@@ -334,6 +334,14 @@ func atomUpperBounded(leaf ssa.Value, sawUnsigned *bool) *Atom {
 		if !ok {
 			return 0, 0
 		}
+		// the comparison may sit in a predicate helper (r.has(l)): its operands are then
+		// the helper's parameters, bound to the arguments of the call being expanded
+		if rx := resolveBoundary(StripConv(x)); rx != StripConv(x) {
+			x = rx
+		}
+		if ry := resolveBoundary(StripConv(y)); ry != StripConv(y) {
+			y = ry
+		}
 		side := 0
 		// a second load of the same field of the same decoded message is the same number
 		sameLoad := func(v ssa.Value) bool {
@@ -403,6 +411,9 @@ func atomNonNegative(v ssa.Value) *Atom {
 		op, x, y, ok := Cmp(cond)
 		if !ok {
 			return 0, 0
+		}
+		if rx := resolveBoundary(Strip(x)); rx != Strip(x) {
+			x = rx
 		}
 		k, isC := ConstInt(y)
 		if !isC || k != 0 || !(StripConvKeepSign(x) == StripConvKeepSign(v) || Same(x, v)) {
